@@ -227,6 +227,13 @@ Definition run_c12 (id : str) (d : doc) (impl : sexp) : str :=
      kv "nuses" (nat_str (length (filter (fun o => match o with Some z => negb (Z.eqb z 0) | None => false end)
                                          (flat_map item_colors (all_items_pd pd)))))]).
 
+Definition run_simple (check : doc -> pdoc -> nat) (id : str) (d : doc) (impl : sexp) : str :=
+  with_parsed id d impl (fun pd =>
+    let cl := check d pd in
+    [kv "holds" (bool_str (Nat.eqb cl 0)); kv "clause" (nat_str cl);
+     kv "agree" (bool_str (items_agree d pd));
+     kv "npages" (nat_str (length (observed_pages pd)))]).
+
 Definition run_case (e : sexp) : str :=
   match e with
   | SList [SStr mode; SStr id; de; impl] =>
@@ -236,6 +243,7 @@ Definition run_case (e : sexp) : str :=
       if str_eqb mode (s2l "corr") then run_corr id d impl
       else if str_eqb mode (s2l "c01") then run_c01 id d impl
       else if str_eqb mode (s2l "c04") then run_c04 id d impl
+      else if str_eqb mode (s2l "c06") then run_simple check_c06 id d impl
       else if str_eqb mode (s2l "c12") then run_c12 id d impl
       else if str_eqb mode (s2l "c13") then run_c13 id d impl
       else if str_eqb mode (s2l "c02") then run_c02 id d impl
